@@ -588,7 +588,7 @@ func ruleSextet(c *Ctx) *RuleResult {
 	}
 	// counter+1 == K : the bit counter wrapping to the next byte
 	wrapAt := func(in ssa.Instruction) (int64, bool) {
-		if bo, ok := in.(*ssa.BinOp); ok && bo.Op == token.EQL && isInt(bo.X.Type()) && !isByte(bo.X.Type()) {
+		if bo, ok := in.(*ssa.BinOp); ok && (bo.Op == token.EQL || bo.Op == token.NEQ || bo.Op == token.LSS || bo.Op == token.GEQ) && isInt(bo.X.Type()) && !isByte(bo.X.Type()) {
 			x := bo.X
 			// a counter captured by a closure lives in a cell: look through the load at the value just stored
 			if ld, ok := x.(*ssa.UnOp); ok && ld.Op == token.MUL {
